@@ -67,6 +67,7 @@ class Part:
     shards: int = NPROC
     # enum: cases() -> iterable of JSON-able cases (deterministic order); sharded by index modulo
     cases: Optional[Callable[[], Iterable[Any]]] = None
+    sharded: bool = False  # cases(shard, nshards) does its own sharding
     exhaustive: bool = False  # enum part enumerates a finite sub-space completely
     distinct_by_construction: bool = False  # skip the hash set (huge enumerations)
     space: str = ''  # description of the enumerated sub-space
@@ -247,9 +248,11 @@ def _worker_enum(args):
     col = Collected()
     try:
         part = _get_part(prop_id, tier, part_name)
-        for i, case in enumerate(part.cases()):
-            if i % nshards != shard:
-                continue
+        if part.sharded:
+            it = part.cases(shard, nshards)
+        else:
+            it = (c for i, c in enumerate(part.cases()) if i % nshards == shard)
+        for case in it:
             res = safe_check(part, case, prop_id)
             col.add(case, res, distinct_by_construction=part.distinct_by_construction)
     except HarnessError as e:
